@@ -186,7 +186,7 @@ def records_xml(records, namer, sites, xsdp, indent):
             out.extend(children)
             out.append("%s</prov:%s>" % (indent, el))
         else:
-            out.append("%s<prov:%s%s%s/>" % (indent, el, idattr, rec_attr))
+            out.append("%s<prov:%s%s%s%s/>" % (indent, el, idattr, rec_attr, nested))
     for coll, members in merged:
         out.append("%s<prov:hadMember>" % indent)
         out.append("%s  <prov:collection prov:ref=%s/>" % (indent, quoteattr(namer.qname(coll[1]))))
